@@ -2,7 +2,7 @@
    Statements only; each is closed by a lemma of Proofs/ and followed by Print Assumptions.
    Operator level (the sweeps); the lift to whole expression trees is Proofs/Assembly.v. *)
 From CG Require Import Proofs.Defs Proofs.Compl Proofs.Merge Proofs.Diff Proofs.InterDisjoint
-     Proofs.Clip Proofs.Stored.
+     Proofs.Clip Proofs.Stored Proofs.Assembly.
 
 (* union ( | ): heapq.merge yields every event of every operand exactly once; covered time is
    the union — for ANY operand streams (overlapping, nested, duplicated, unbounded, unsorted) *)
@@ -60,6 +60,32 @@ Theorem C01_stored_complete : forall store a b rv x,
   In x (fetch_static store a b rv).
 Proof. exact fetch_static_complete. Qed.
 Print Assumptions C01_stored_complete.
+
+(* ---- whole expression trees ----
+   [good env e] (Proofs/Assembly.v): stored leaves with well-formed events of ANY shape
+   (overlapping, nested, adjacent, duplicated, unbounded), arbitrarily nested | & - ~ flatten and
+   leaf filters, where every operand of an intersection and every source of a difference produces
+   an internally non-overlapping stream ([dj]: the boundary of known findings KF-D1/KF-D2;
+   complements, flattened timelines, differences of such and all-mask intersections always do).
+   For every window (bounded, open-ended, fully open, bounds in either order): the instants
+   covered by the slice are exactly the pointwise Boolean denotation restricted to the window. *)
+Theorem C01_set_algebra : forall env e a b,
+  good env e -> wf_win' a b ->
+  forall t, covers (slice env e a b false) t =
+            inw (fst (norm_bounds a b)) (snd (norm_bounds a b)) t && den env e t.
+Proof. exact Assembly.C01_set_algebra. Qed.
+Print Assumptions C01_set_algebra.
+
+(* the domain is decidable and non-empty: a nested expression with nested/duplicate/unbounded
+   events, evaluated *)
+Theorem C01_domain_decidable : forall env e, sgood e = true -> good env e.
+Proof. exact sgood_good. Qed.
+Print Assumptions C01_domain_decidable.
+
+Example C01_instance : forall t,
+  covers (slice Examples.env0 Examples.e3 (Some 40) (Some 1) false) t =
+  inw (Some 1) (Some 40) t && den Examples.env0 Examples.e3 t.
+Proof. exact Examples.e3_C01. Qed.
 
 (* non-vacuity: nested, duplicated, touching, unbounded events satisfy the hypotheses *)
 Example C01_hypotheses_satisfiable :
